@@ -75,6 +75,17 @@ func genMods(r *c.Rng) []ModSpec {
 			el = append(el, e)
 		}
 		m.Elems = el
+		// every other module has no element section at all: its table elements are dropped, global initialisers stay
+		if r.Intn(2) == 0 {
+			m.NoElem = true
+			var gl [][3]int
+			for _, e := range m.Elems {
+				if e[0] >= m.nTab() {
+					gl = append(gl, e)
+				}
+			}
+			m.Elems = gl
+		}
 	}
 	return mods
 }
@@ -99,6 +110,7 @@ func generate(seed uint64, n int) {
 		up := make([]bool, nm) // instantiated, handle held, believed open
 		compiled := make([]bool, nm)
 		rtOpen := true
+		grown := map[[2]int]int{}
 		engOpen := true // compiling after the engine was closed is not exercised (see notes in checks/c09.py)
 		add := func(k string, a ...int) { h.Ops = append(h.Ops, Op{k, a}) }
 		anyMod := func() int {
@@ -114,10 +126,31 @@ func generate(seed uint64, n int) {
 			return l[r.Intn(len(l))]
 		}
 		slot := func() int {
-			if r.Intn(12) == 0 {
+			switch r.Intn(14) {
+			case 0:
 				return 5
+			case 1:
+				return 4 // exists only after a table.grow
 			}
 			return r.Intn(4)
+		}
+		// storeRef: ref.func f of module m into its holder t, through table.set/global.set, table.fill or table.grow
+		storeRef := func(m, t, k, f int) (slotUsed int) {
+			if t < mods[m].nTab() {
+				switch r.Intn(6) {
+				case 0:
+					add("fil", m, t, k, f)
+					return k
+				case 1:
+					if grown[[2]int{m, t}] < 2 { // keep tables small
+						grown[[2]int{m, t}]++
+						add("grw", m, t, f)
+						return -1
+					}
+				}
+			}
+			add("set", m, t, k, f)
+			return k
 		}
 		// use: an operation that calls into / mutates an instance
 		use := func() {
@@ -132,11 +165,16 @@ func generate(seed uint64, n int) {
 				}
 			case k < 7:
 				if ms.nHold() > 0 {
-					add("set", m, r.Intn(ms.nHold()), slot(), pickRec(r, ms))
+					storeRef(m, r.Intn(ms.nHold()), slot(), pickRec(r, ms))
 				}
 			case k < 8:
 				if ms.nHold() > 0 {
-					add("cp", m, r.Intn(ms.nHold()), slot(), r.Intn(ms.nHold()), slot())
+					ts, td := r.Intn(ms.nHold()), r.Intn(ms.nHold())
+					if ts < ms.nTab() && td < ms.nTab() && r.Intn(2) == 0 {
+						add("cpc", m, ts, slot(), td, slot())
+					} else {
+						add("cp", m, ts, slot(), td, slot())
+					}
 				}
 			case k < 9:
 				if len(ms.ImpS) > 0 {
@@ -225,6 +263,42 @@ func generate(seed uint64, n int) {
 			}
 			add("gc")
 		}
+		// sharedStore: importer m stores ref.func of its OWN function into slot k of the q-th table it imported (by one
+		// of several instruction shapes), the exporter calls it, m is closed/dropped/collected, the exporter calls again
+		sharedStore := func(m, q, k, variant int) {
+			ms := &mods[m]
+			src := ms.ImpT[q]
+			f := ms.nImpRec() + r.Intn(ms.NFun)
+			priv := -1
+			if ms.NPriv > 0 {
+				priv = len(ms.ImpT) + ms.NExp
+			}
+			passq := -1
+			for i, p := range ms.ImpS {
+				if p == src {
+					passq = i
+				}
+			}
+			switch {
+			case variant == 1:
+				add("fil", m, q, k, f)
+			case variant == 2 && priv >= 0: // through a private table and table.copy
+				add("set", m, priv, k, f)
+				add("cpc", m, priv, k, q, k)
+			case variant == 3 && passq >= 0: // through the exporter's own setter, the reference travelling as a parameter
+				add("pass", m, f, passq, k)
+			case variant == 4 && grown[[2]int{src[0], src[1]}] < 2:
+				grown[[2]int{src[0], src[1]}]++
+				add("grw", m, q, f)
+				k = 4
+			default:
+				add("set", m, q, k, f)
+			}
+			add("ind", src[0], src[1], k)
+			closeAll(m)
+			add("ind", src[0], src[1], k)
+			add("ind", src[0], src[1], k)
+		}
 		for sc := 1 + r.Intn(2); sc > 0; sc-- {
 			switch r.Intn(4) {
 			case 0: // F08 pattern around a store-by-parameter import
@@ -290,13 +364,7 @@ func generate(seed uint64, n int) {
 				}
 				if len(ps) > 0 {
 					m := ps[r.Intn(len(ps))]
-					q := r.Intn(len(mods[m].ImpT))
-					src := mods[m].ImpT[q]
-					k := r.Intn(4)
-					add("set", m, q, k, mods[m].nImpRec()+r.Intn(mods[m].NFun))
-					add("ind", src[0], src[1], k)
-					closeAll(m)
-					add("ind", src[0], src[1], k)
+					sharedStore(m, r.Intn(len(mods[m].ImpT)), r.Intn(4), r.Intn(5))
 				}
 			default: // a compiled module is closed and dropped while its instance lives on
 				m := r.Intn(nm)
@@ -349,9 +417,45 @@ func generate(seed uint64, n int) {
 		}
 		out.Emit(h)
 	}
+	for i, h := range FixedShared(n + 10) {
+		_ = i
+		out.Emit(h)
+	}
 	out.Emit(Witness(n, true, false))
 	out.Emit(Witness(n+1, false, false))
 	out.Emit(Witness(n+2, true, true))
 	out.Emit(History{ID: n + 3, Cached: true, Cut: -1, Witness: "F08b", Probe: "global"})
 	out.Emit(History{ID: n + 4, Cached: true, Cut: -1, Witness: "F08b", Probe: "global", NoChurn: true})
+}
+
+// FixedShared: the run-time store into an imported SHARED table by an importer WITHOUT any element section (its
+// function is referable because it is exported), in every instruction shape, then close instance + compiled module,
+// drop every handle, collect, and the table owner's call_indirect (twice). A tracked channel: the model says safe.
+func FixedShared(id int) []History {
+	owner := ModSpec{NFun: 1, NExp: 1, Size: 4, NoElem: true}
+	var hs []History
+	for v, store := range [][]Op{
+		{{"set", []int{1, 0, 1, 0}}},
+		{{"fil", []int{1, 0, 1, 0}}},
+		{{"set", []int{1, 1, 1, 0}}, {"cpc", []int{1, 1, 1, 0, 1}}},
+		{{"pass", []int{1, 1, 0, 1}}},
+		{{"grw", []int{1, 0, 0}}},
+	} {
+		plugin := ModSpec{ImpT: [][2]int{{0, 0}}, NFun: 1, Size: 4, NoElem: true}
+		slot := 1
+		switch v {
+		case 2:
+			plugin.NPriv = 1
+		case 3:
+			plugin.ImpS = [][2]int{{0, 0}} // record 0 is the imported setter, record 1 the own function
+		case 4:
+			slot = 4
+		}
+		ops := []Op{{"compile", []int{0}}, {"inst", []int{0}}, {"compile", []int{1}}, {"inst", []int{1}}}
+		ops = append(ops, store...)
+		ops = append(ops, Op{"ind", []int{0, 0, slot}}, Op{"closemod", []int{1}}, Op{"closecm", []int{1}}, Op{"dropmod", []int{1}},
+			Op{"dropcm", []int{1}}, Op{"gc", nil}, Op{"ind", []int{0, 0, slot}}, Op{"gc", nil}, Op{"ind", []int{0, 0, slot}})
+		hs = append(hs, History{ID: id + v, Cached: v%2 == 0, Cut: -1, Mods: []ModSpec{owner, plugin}, Ops: ops})
+	}
+	return hs
 }
